@@ -1,11 +1,36 @@
+import OdmlModel.Model.Rdf
 import Driver.Util
 import Driver.Loop
+import Driver.RdfCodec
 open Lean Drv
 
 namespace DrvC10
+open Rdf RdfCodec
 
-/-- Stub: replaced when the model of C10 is built. -/
-def handle (_j : Json) : Except String Json := throw "model of C10 not built"
+def handle (j : Json) : Except String Json := do
+  let op ← getStr j "op"
+  match op with
+  | "export" =>
+    let docs ← (← getArr j "docs").toList.mapM decDoc
+    let dflt ← decPairs j "default"
+    let custom ← decPairs j "custom"
+    match mkCfg (← getBool j "subclassing") dflt custom with
+    | none => pure (jobj [("raised", jstr "ValueError")])
+    | some cfg =>
+      let g := exportRdf cfg docs
+      pure (jobj [("triples", jarr (g.map encTriple)), ("import", encImport (importRdf g)),
+                  ("import_rev", encImport (importRdf g.reverse)),
+                  -- the hypotheses of C10.rdf_roundtrip / _partial, evaluated on this case
+                  ("wf", jbool (wfDocsB docs)), ("repr", jbool (rdfReprB docs)),
+                  ("nounc", jbool (noUncB docs))])
+  | "import" =>
+    let g ← (← getArr j "triples").toList.mapM decTriple
+    pure (encImport (importRdf g))
+  | "format" =>
+    let fs ← (← getArr j "formats").toList.mapM fun x => match x with
+      | .str s => pure s | _ => throw "bad format"
+    pure (jbool (formatAccepted fs (← getStr j "fmt")))
+  | _ => throw s!"unknown op {op}"
 
 end DrvC10
 
